@@ -1,5 +1,5 @@
 (* model-side driver for C16: same line protocol as harness/cmd/c16obs.
-   Every case is run through the concrete model (crun / brun: Go slices, shared arrays, aliased map index) and
+   Every case is run through the concrete model (crun / brun: Go slices in place, byte_slices over a heap of arrays) and
    printed through its abstraction; with argument "ref" the reference containers (arun / rbrun) are run instead. *)
 open Containers_model
 
